@@ -483,7 +483,8 @@ def generalise(rng, path):
         elif r < 0.9 and c:
             i = rng.randrange(len(c))
             j = rng.randint(i, len(c))
-            mid = rng.choice(["*", "?", "[!z]", "[a-c]", "${*n}", "${*m}", "*${*n}", "${*n}${*m}", "[!a]", "**"])
+            mid = rng.choice(["*", "?", "[!z]", "[a-c]", "${*n}", "${*m}", "*${*n}", "${*n}${*m}", "[!a]", "**",
+                              "[!/]"])
             out.append(c[:i] + mid + c[j:])
         else:
             out.append(rng.choice(["?", "??", "[ab]", "[!a]", ".*", "*.*"]))
@@ -640,15 +641,16 @@ def _witness(c, **extra):
 # disagreement is attributed to the smallest set of mechanisms whose repairs make the clause hold;
 # when no set does, the cause is "unexplained" and the failure is reported under that signature.
 
-NEG, EMPTY, NEWLINE, GHOST, DIRS, SUBREC = (
+NEG, EMPTY, NEWLINE, GHOST, DIRS, SUBREC, SEPCLS = (
     "negated-class-accepts-separator",              # [!a] -> [^a] also matches '/'
     "empty-last-component-accepted",                # d/*${*n} and d/**/* accept "d/"
     "newline-not-matched-by-recursive-wildcard",    # ** -> .* without DOTALL
     "recursive-glob-yields-nonexistent-directory",  # glob('f/**') = ['f/'] although f is no directory
     "directory-dropped-last-token-not-star",        # `a` does not match the directory a/
     "recursive-wildcard-in-sub-pattern",            # ${*n} with n='**' is compiled out of context
+    "class-contains-separator",                     # a[!/]b: glob.glob splits the pattern inside the brackets
 )
-CAUSES = [NEG, EMPTY, NEWLINE, GHOST, DIRS, SUBREC]
+CAUSES = [NEG, EMPTY, NEWLINE, GHOST, DIRS, SUBREC, SEPCLS]
 _STAR = r"(?:\[\^/\][*+]|\(\?P<\w+>\[\^/\][*+]\)|\(\?P=\w+\))"
 # the parts after the last separator, when each of them is a single-component wildcard or a back-reference
 _TRAILING_RUN = re.compile(r"(?:/|\(\?:\.\*/\|\))(" + _STAR + r"+)(?:/\?)?$")
@@ -696,6 +698,27 @@ def has_recursive_sub(pattern, subs):
     return any(tok in ("**", "**/") for n, v in subs.items() if n in used for tok in RE_ANY_WILD.split(v)[1::2])
 
 
+def has_sep_class(pattern, subs):
+    """Some bracket expression of the pattern (or of a used sub-pattern) contains the separator."""
+    from stepup.core.nglob import RE_ANY_WILD
+    used = set(names_of(pattern))
+    texts = [pattern] + [v for n, v in subs.items() if n in used]
+    return any(tok.startswith("[") and "/" in tok for t in texts for tok in RE_ANY_WILD.split(t)[1::2])
+
+
+def repaired_candidates(pattern, subs, fixes, std, existing):
+    """The candidate list glob() would scan if the hypothetical repairs in `fixes` were in place: `std` is
+    what glob.glob returns for the translated pattern (directories normalised), `existing` all existing paths."""
+    cands = set(std)
+    if GHOST in fixes or impl_traits()["skips_ghosts"]:
+        cands &= set(existing)
+    if SEPCLS in fixes and has_sep_class(pattern, subs):
+        # glob.glob splits such a pattern inside the brackets; a repaired translation would offer
+        # every existing path the matcher could accept
+        cands = set(existing)
+    return cands
+
+
 def repaired_regex(pattern, subs, fixes):
     """The regex the implementation would use if the hypothetical repairs in `fixes` were in place."""
     from stepup.core.nglob import convert_nglob_to_regex
@@ -726,14 +749,14 @@ def clause_holds(c, fixes, clause):
     except (ValueError, re.error):
         return False
     existing = set(c.allpaths)
-    cands = set(c.std_own)
-    if GHOST in fixes or impl_traits()["skips_ghosts"]:
-        cands &= existing
+    cands = repaired_candidates(c.pattern, c.subs, fixes, c.std_own, existing)
     rec = {q for q in cands if rx.fullmatch(q)}
     acc = {q for q in existing if rx.fullmatch(q)}
     if clause == "O1":
         return rec == acc
     if clause == "O2":
+        if SEPCLS in fixes and has_sep_class(c.pattern, c.subs):
+            return rec == acc    # the standard glob of such a pattern is not a reference
         return rec == (c.std_own & existing)
     raise AssertionError(clause)
 
@@ -844,6 +867,8 @@ WITNESSES = [
     ({"aa": {"aa": None}}, "*${*n}aa", {"n": "**"}),
     ({"a": {}}, "a${*n}/${*n}", {}),
     ({"d": {"n\nl": None}}, "d/**", {}),
+    # D5g, C17_class_with_separator_candidates_incomplete_refuted (proofs/NglobCands2.v)
+    ({"axb": None}, "a[!/]b", {}),
 ]
 
 
@@ -878,6 +903,7 @@ def oracle_named_vs_star(ctx):
     rng = ctx.rng
     n = ctx.scale(250, 3000)
     fails = 0
+    seen = set()
     for _ in range(n):
         p = gen_pattern(rng, odd=0.0, maxlen=5)
         if not in_domain(p) or not classes_plain(p, {}) or not _good_names(p) or "fresh" in p:
@@ -898,6 +924,23 @@ def oracle_named_vs_star(ctx):
                 continue
             ma, mb = a._regex.fullmatch(s) is not None, b._regex.fullmatch(s) is not None
             ctx.case(("O3", p, i, s), ma or mb)
+            if ma != mb:
+                # next to another `*` the two compilers differ (merging) and one of them accepts an empty
+                # last component: C17_named_equals_star_adjacent_refuted, mechanism D5d.  Attribute by repair.
+                def holds(fixes, p=p, q=q, s=s):
+                    try:
+                        return (repaired_regex(p, {}, fixes).fullmatch(s) is None) == \
+                            (repaired_regex(q, {}, fixes).fullmatch(s) is None)
+                    except (ValueError, re.error):
+                        return False
+                causes = explain(holds)
+                if causes:
+                    ctx.count("O3_explained_by_" + "+".join(causes))
+                    report_causes(ctx, seen, "O3", "O3:named=star", causes,
+                                  f"{p!r} {'accepts' if ma else 'rejects'} {s!r} but {q!r} (one `*` replaced by a named "
+                                  f"wildcard) {'accepts' if mb else 'rejects'} it",
+                                  {"anonymous": p, "named": q, "path": s})
+                    continue
             if ma != mb and fails < 1:
                 fails += 1
                 ctx.add_failure("oracle", "O3:named=star", "O3:named-wildcard-changes-acceptance",
@@ -1052,10 +1095,8 @@ def oracle_update(ctx):
                             rx = repaired_regex(ng.pattern, ng.subs, fixes)
                         except (ValueError, re.error):
                             return False
-                        cb, ca = set(std_before), set(std_after)
-                        if GHOST in fixes or impl_traits()["skips_ghosts"]:
-                            cb &= before
-                            ca &= after
+                        cb = repaired_candidates(ng.pattern, ng.subs, fixes, std_before, before)
+                        ca = repaired_candidates(ng.pattern, ng.subs, fixes, std_after, after)
                         old = {q for q in cb if rx.fullmatch(q)}
                         evolved = (old | {q for q in set(added) | set(touched) if rx.fullmatch(q)}) - set(deleted)
                         return evolved == {q for q in ca if rx.fullmatch(q)}
